@@ -187,6 +187,44 @@ def run(prog, check):
                      ci.name, 'defines' if kind == 'define-if-empty' else 'overwrites', nm.show(),
                      'the first one processed wins' if kind == 'define-if-empty' else 'the last one processed wins'),
                  'two %s objects declared in either order' % ci.name)
+    # ---- R1 (c): a generation method must not overwrite one of its own variables that other objects add to ----------
+    foreign = []      # contributions made on *other* sectors during generation: (class, fn, effect, kind, name)
+    own_over = []     # overwrites of own variables during generation
+    for ci, m, it in units:
+        for e in [x for x in it.effects if x.phase == 'gen']:
+            fn = e.via[-1] if e.via else m.qualname
+            if e.kind == 'def' and e.role != SELF and e.role.kind != 'ext' and e.mode == 'addterm':
+                foreign.append((ci, fn, e, 'adds a term to', e.name))
+            if e.kind == 'def' and e.role == SELF and e.mode in ('create', 'set') and not e.loops:
+                own_over.append((ci, fn, e))
+    own_over = uniq(own_over, lambda w: (w[1], w[2].name.key(), w[2].mode))
+    foreign = uniq(foreign, lambda c: (c[1], c[2].role.key(), c[4].key()))
+    for ci, fn, e in own_over:
+        hits = []
+        for cj, fn2, e2, what, nm in foreign:
+            if cj is ci and fn2 == fn:
+                continue
+            if unify(e.name, nm):
+                hits.append('%s %s %s on the sectors it visits' % (fn2, what, nm.show()))
+        key = '%s::%s::overwrites-own(%s)' % (e.where.split(':')[0], fn, e.name.show())
+        check.ob('C08.R1', key, not hits, e.where,
+                 'no other object contributes to this variable during generation' if not hits else
+                 'this generation method (re)defines its own %s, while %s: if that object is processed first its contribution is wiped out'
+                 % (e.name.show(), '; '.join(hits[:2])), 'declaring the market before / after this sector')
+    # ---- R3: creation order (object IDs) is only ever compared for equality --------------------------------
+    from .C17 import classify_id_use
+    n_id = 0
+    for f in prog.all_functions():
+        for x in ast.walk(f.node):
+            if isinstance(x, ast.Attribute) and x.attr == 'ID' and isinstance(x.ctx, ast.Load):
+                kind, ok = classify_id_use(x, f)
+                if kind.startswith('equality') or not ok:
+                    n_id += 1
+                    check.ob('C08.R3', '%s::ID-compare(%s)' % (f.key, kind), ok, '%s:%d' % (f.module.rel, x.lineno),
+                             'object IDs (which follow declaration order) are compared for identity only' if ok else
+                             'object IDs follow declaration order and are used for %s: the outcome depends on the order of declaration' % kind,
+                             'the same sectors declared in another order')
+    check.floor('C08.R3', 5)
     # ---- R2 ----------------------------------------------------------------------------------------
     n2 = 0
     for ci, m, it in units:
